@@ -1,12 +1,15 @@
 """C02 - stream reassembly is independent of arrival order (spec/Reassembly*.tla)."""
 import os
+from concurrent.futures import ThreadPoolExecutor
 import lib
+from props import c02_ind
 
 LEVEL = "model_checking"
 ASSUME = [
     "each frame is delivered to the reassembly buffer exactly once (duplicates are outside the statement)",
     "sequence numbers are Base+index; the code only compares them with == and <, Base is swept over 0, 2^32-3, 2^32, 2^63-2, 2^64-N-1",
     "bytes.Buffer and sync.Cond of the Go runtime are trusted",
+    "the TLAPS proof (all N) is about ReassemblyInd.tla, whose equivalence with the replayed Reassembly.tla is TLC-checked for N<=8, not proved",
 ]
 
 
@@ -18,6 +21,11 @@ def validate_trace(ctx, trace_path, module, cfg, subst=None, tag=None, dfs=True)
 
 def run(ctx):
     q = ctx.quick()
+    # 0. the inductive argument (TLAPS for every N, Apalache for symbolic N<=8: thorough tier; TLC equivalence of the
+    #    closed-form spec with Reassembly.tla: both tiers) runs beside everything else. It says nothing about the code:
+    #    if a prover cannot be re-run the verdict of the check is unaffected and the evidence says so.
+    pool = ThreadPoolExecutor(max_workers=1)
+    f_ind = pool.submit(c02_ind.stage, ctx)
     # 1. exhaustive model check: every arrival order x every read interleaving
     nmc = 6 if q else 8
     r = lib.require_ok(lib.run_tlc(ctx, "Reassembly", "Reassembly_mc.cfg", {"N": nmc}), "Reassembly N=%d" % nmc)
@@ -60,7 +68,14 @@ def run(ctx):
                                    "replay": {"cex": v.cex[-2:]}})
         traces_ok = 0
     ctx.log("trace: %d events, accepted=%s (%d states)" % (nev, v.ok, v.distinct))
+    try:
+        ind = f_ind.result()
+        ind = {k: ind[k] for k in ("method", "result", "obligations", "wall_s")}
+    except lib.Inconclusive as e:
+        ind = {"result": "not re-established in this run", "reason": str(e)[:400]}
+        ctx.notes.append("inductive leg not re-established: %s" % str(e)[:200])
     cov = {
+        "inductive_argument": ind,
         "evaluations": res["evaluations"] + tr["evaluations"],
         "distinct_nontrivial": res["distinct_nontrivial"] + tr["distinct_nontrivial"],
         "rule": "behaviours = every maximal path of ReassemblyGen (all N! arrival orders x drain points, N<=%d, both with and "
